@@ -7,6 +7,7 @@ package vrt
 import (
 	"fmt"
 	"go/ast"
+	"go/format"
 	"go/parser"
 	"go/token"
 	"go/types"
@@ -18,6 +19,8 @@ func init() {
 	NativeFuncs["JudgeHooks"] = JudgeHooks
 	NativeFuncs["JudgeErrFlow"] = JudgeErrFlow
 	NativeFuncs["ParsesAsFunc"] = ParsesAsFunc
+	NativeFuncs["ParsesAsFile"] = ParsesAsFile
+	NativeFuncs["Gofmt"] = Gofmt
 }
 
 func parseFunc(text string) (*ast.FuncDecl, *token.FileSet, error) {
@@ -41,6 +44,25 @@ func ParsesAsFunc(text string) string {
 		return err.Error()
 	}
 	return ""
+}
+
+// ParsesAsFile returns "" when text is a syntactically valid Go source file, else the parser's message.
+func ParsesAsFile(text string) string {
+	_, err := parser.ParseFile(token.NewFileSet(), "out.go", text, parser.ParseComments)
+	if err != nil {
+		return err.Error()
+	}
+	return ""
+}
+
+// Gofmt returns text formatted by go/format (what the generator's last stage does), or text itself
+// when it does not parse.
+func Gofmt(text string) string {
+	out, err := format.Source([]byte(text))
+	if err != nil {
+		return text
+	}
+	return string(out)
 }
 
 func fieldList(fl *ast.FieldList) []string {
